@@ -27,7 +27,7 @@ sh("git checkout -q -- . && git clean -fdq tests", cwd=wt)
 r0 = sh("git checkout -q --detach main", cwd=wt)
 assert r0.returncode == 0, r0.stderr
 head = sh("git rev-parse --short HEAD", cwd=wt).stdout.strip()
-sh("cp /repo/tests/verif_replay.rs tests/verif_replay.rs && cp /repo/Cargo.toml Cargo.toml", cwd=wt)
+sh("cp /repo/tests/verif_replay.rs tests/verif_replay.rs && cp /repo/tests/verif_replay_io.rs tests/verif_replay_io.rs && cp /repo/Cargo.toml Cargo.toml", cwd=wt)
 ap = sh(f"git apply {src}/patch.diff", cwd=wt)
 results = {}
 if ap.returncode != 0:
